@@ -50,6 +50,8 @@ pub struct Sched {
     pub bound_ms: u64,
     /// drop the future unpolled instead of running it (laziness check)
     pub drop_unpolled: bool,
+    /// task kinds: run on a multi-thread tokio runtime with a releasing thread (stress; expiries are inconclusive)
+    pub mt: bool,
 }
 
 pub struct RunRec {
@@ -616,4 +618,61 @@ pub fn run_async_tasks(case: &Case, exp: &Exp, plan: &Plan, sched: &Sched) -> Ru
     let quiesced = crate::tok::live() == 0;
     let (l, st) = split_log();
     RunRec { outcome, log: l, stale: st, notes: d.notes, caller_thr, polls, decisions: d.decisions, max_held: d.max_held, quiesced }
+}
+
+/// Stress driver for task kinds: real parallelism on a multi-thread tokio runtime. Gates (if any) are released
+/// by a separate thread in priority order as they arrive; nothing here is decided on timing — an expiry is
+/// reported as `Hung` and treated as inconclusive by the caller.
+pub fn run_async_tasks_mt(case: &Case, exp: &Exp, plan: &Plan, sched: &Sched) -> RunRec {
+    let base_threads = os_threads();
+    setup(case.prog, plan);
+    let mk = match case.run {
+        Run::Async(f) => f,
+        _ => unreachable!(),
+    };
+    let caller_thr = log::thr();
+    let tracker = GateTracker::new(case.prog, exp, plan);
+    let all_gates = tracker.all();
+    let done = Arc::new(std::sync::atomic::AtomicBool::new(false));
+    let done2 = done.clone();
+    let prio = sched.prio.clone();
+    let releaser = std::thread::spawn(move || {
+        let mut released: HashSet<u16> = HashSet::new();
+        let mut n = 0u64;
+        while !done2.load(Ordering::SeqCst) {
+            let pending: Vec<u16> = gate::arrived().into_iter().filter(|g| !released.contains(g)).collect();
+            if let Some(g) = pick(&prio, &pending, 1).first().copied() {
+                released.insert(g);
+                gate::release(g);
+            }
+            n += 1;
+            if n % 3 == 0 {
+                std::thread::sleep(Duration::from_micros(30));
+            } else {
+                std::thread::yield_now();
+            }
+        }
+    });
+    let bound = Duration::from_millis(sched.bound_ms.max(1));
+    let rt = tokio::runtime::Builder::new_multi_thread().worker_threads(3).enable_time().build().expect("tokio rt");
+    let r = catch_unwind(AssertUnwindSafe(|| {
+        rt.block_on(async {
+            let fut = mk();
+            match tokio::time::timeout(bound, fut).await {
+                Ok(o) => Outcome::Done(o),
+                Err(_) => Outcome::Hung(format!("no result within {:?} on the multi-thread runtime (gates {:?}, arrived {:?})", bound, all_gates, gate::arrived())),
+            }
+        })
+    }));
+    let outcome = match r {
+        Ok(o) => o,
+        Err(e) => Outcome::Panicked(panic_msg(e)),
+    };
+    done.store(true, Ordering::SeqCst);
+    gate::open_all();
+    let _ = releaser.join();
+    drop(rt);
+    let quiesced = quiesce(Duration::from_secs(5), base_threads);
+    let (l, st) = split_log();
+    RunRec { outcome, log: l, stale: st, notes: vec![], caller_thr, polls: 0, decisions: 0, max_held: 0, quiesced }
 }
